@@ -156,6 +156,14 @@ def build_cases(tb, rnd, tier):
             dh={'diffie-hellman-group-exchange-sha256': (bits, False)})
         add('kex', ['diffie-hellman-group-exchange-sha1', 'diffie-hellman-group-exchange-sha256'], 'server', 'diffie-hellman-group-exchange-sha1', 'sized',
             dh={'diffie-hellman-group-exchange-sha1': (bits, False), 'diffie-hellman-group-exchange-sha256': (bits, False)})
+    # host certificates whose key or CA draws a size finding, for the certificate types whose table entry is short (no failure or warning list
+    # of its own) as well as for the long one: the finding is shown once, at its own level, next to the entry's notes
+    for ct in ('ssh-rsa-cert-v01@openssh.com', 'rsa-sha2-256-cert-v01@openssh.com', 'rsa-sha2-512-cert-v01@openssh.com', 'ssh-ed25519-cert-v01@openssh.com'):
+        rsa = not ct.startswith('ssh-ed25519')
+        for hs, ca, casz in ((3072, 'ssh-rsa', 2048), (2048, 'ssh-ed25519', 256), (4096, 'ecdsa-sha2-nistp256', 256), (1024, 'ssh-rsa', 1024), (3072, 'ssh-rsa', 4096)):
+            if not rsa and hs != 3072 and ca == 'ssh-ed25519':
+                continue
+            add('key', [ct, 'ssh-ed25519'], 'server', ct, 'sized', hk={ct: (hs if rsa else 256, ca, casz)})
     add('kex', ['diffie-hellman-group-exchange-sha256'], 'server', 'diffie-hellman-group-exchange-sha256', 'sized',
         dh={'diffie-hellman-group-exchange-sha256': (2048, False)}, sw=ossh)
     add('kex', ['diffie-hellman-group-exchange-sha256'], 'server', 'diffie-hellman-group-exchange-sha256', 'sized',
